@@ -1,6 +1,8 @@
 """C20 — async lru_cache: correspondence of prims/Lru.v with anyio.functools.lru_cache on SchedLoop, plus
 model-independent history monitors (value faithful, single flight, no internal error, bounded retention,
-expired recomputed, LRU retention) and the known-finding protocol for F3 / F8."""
+expired recomputed, LRU order / retention, cache_info accounting) and the known-finding protocol:
+every monitor hit is explained by exactly one of F3 / F8 / F30 / F31 / F32 / F41 from predicates computed on the
+IMPLEMENTATION-observed history (never from the model's ghost flags), or it is a VIOLATION."""
 
 from __future__ import annotations
 
@@ -13,14 +15,30 @@ import core
 
 DRIVERS = [("lru", "Lru")]
 
-OPS = {"Call": 0, "WrappedReturns": 1, "WrappedRaises": 2, "CancelCaller": 3, "Resume": 4, "Tick": 5, "Clear": 6}
+OPS = {"Call": 0, "WrappedReturns": 1, "WrappedRaises": 2, "CancelCaller": 3, "Resume": 4, "Tick": 5, "Clear": 6,
+       "CallX": 7, "NewLoop": 8}
 OPN = {v: k for k, v in OPS.items()}
 EXC_CLASSES = [ValueError, KeyError, LookupError]   # what the wrapped function may raise (KeyError on purpose)
+NFLAGS = 6
+HDR = 5 + NFLAGS + 1    # result kind, value, hits, misses, currsize, flags, number of dict items
 
-F3_WHAT = ("lru_cache: a miss evicts an entry whose computation is still in flight "
-           "(KeyError to a waiter / more than maxsize results retained / second flight) [F3, predicate evicts_inflight]")
-F8_WHAT = ("lru_cache: a miss or ttl expiry removes a completed entry while a caller is still queued on its lock "
-           "(KeyError to the waiter / second flight) [F8, predicate evicts_waited]")
+KNOWN = {
+    "F3": ("lru_cache: a miss evicts an entry whose computation is still in flight "
+           "(KeyError to a waiter / more than maxsize results retained / second flight) [F3, predicate evicts_inflight]"),
+    "F8": ("lru_cache: a miss or ttl expiry removes a completed entry while a caller is still queued on its lock "
+           "(KeyError to the waiter / second flight) [F8, predicate evicts_waited]"),
+    "F30": ("lru_cache: _currsize lives on the wrapper, the entries per event loop / per cache_clear(): a new loop or a "
+            "cache_clear() racing a flight leaves a phantom count (own placeholder evicted, single flight lost, KeyError "
+            "to waiters, capacity shrinks) [F30, predicate stale_count_other_loop]"),
+    "F31": ("lru_cache: a call aborted while entering the key's lock leaves an uncounted placeholder; a later miss "
+            "evicts it instead of a result: more than maxsize results retained [F31, predicate uncounted_placeholder]"),
+    "F32": ("lru_cache: maxsize=0 returns before any lock: concurrent equal calls all run at once "
+            "[F32, predicate maxsize0_no_single_flight]"),
+    "F41": ("lru_cache: a failed or cancelled computation leaves its placeholder counted in _currsize: the retry counts "
+            "the key twice, capacity shrinks, entries are evicted although the cache is not full "
+            "[F41, predicate dead_placeholder_counted]"),
+}
+SCOPE_CANCELLED = object()
 
 
 def readable(ops):
@@ -33,62 +51,73 @@ def opt_code(x):
 
 
 class LruRun:
-    """Executes a flat op list against a real lru_cache-wrapped coroutine function."""
+    """Executes a flat op list against ONE real lru_cache-wrapped coroutine function, possibly over several
+    consecutive event loops."""
 
     def __init__(self, maxsize, ttl, ackpt: bool, typed: bool, ncall: int):
-        from puppet import World
-
         self.maxsize, self.ttl, self.ackpt, self.typed, self.ncall = maxsize, ttl, ackpt, typed, ncall
         self.effmax = None if maxsize is None else max(maxsize, 0)
-        self.world = World()
+        self.world = None
+        self._sess = None
         self.ops: list[int] = []
         self.outs: list[int] = []
         self.step_obs: list[list[int]] = []
         self.mon: list[str] = []          # every monitor message
-        self.hits: list[tuple] = []       # (kind, key, message)
-        self.f3_keys: set[int] = set()    # keys whose placeholder was popped by a miss (implementation-observed)
-        self.f8_keys: set[int] = set()    # keys whose completed entry was popped / expired while a caller waited
-        self.ref_order: list[int] = []    # reference recency order (least recently used first)
+        self.hits: list[tuple] = []       # (kind, key, message, info)
         self.flags: set[str] = set()
         self.stepno = 0
         self.nextval = 1
-        # implementation-side bookkeeping (public observables only)
-        self.stage = {}        # caller -> 'lock' | 'wrapped' | 'hitck' while blocked inside a call
+        self.crash = None
+        self.valid = True
+        # ---- bookkeeping of the observed history
+        self.stage = {}        # caller -> 'entry' | 'lock' | 'wrapped' | 'hitck' while blocked inside a call
         self.wfut = {}         # caller -> future its wrapped-function execution waits on
         self.curcall = {}      # caller -> record of the call in progress
-        self.cur_exec = {}     # caller -> its running execution
         self.execs = []        # log kept by the wrapped function itself
         self.calls = []        # finished and running calls
         self.running = {}      # key -> running executions
         self.cancel_req = set()
-        self.fi = False        # harness-side evicts_inflight (from the real dict, for the correspondence)
-        self.fw = False
-        self.clean = True      # no failure / cancellation / clear so far (for the LRU-retention oracle)
-        self.last_use = {}     # key -> step of the last store / hit
         self.activity = []     # (step, key) of every call begin / progress
         self.stored_at = {}    # value -> (key, step, vtime) of the execution that produced it
+        self.keep = []         # dict / lock objects whose id() we use
+        self.counted = set()   # id(lock) of placeholders a miss has counted in currsize
+        self.ref_order: list[int] = []    # reference recency order of the current dict (least recently used first)
+        self.has_dict_pub = False         # a caching call was made in this loop since the last effective cache_clear
         self.exp_hits = 0      # cache_info accounting expected from the observed history
         self.exp_misses = 0
-        self.crash = None
         self.acct_reported = False
+        # ---- implementation-observed predicates (mirror the model's ghost flags, for the correspondence)
+        self.fi = self.fw = self.fu = self.fd = self.fp = self.fb = False
+        # ---- explanation data
+        self.evict_class = {}  # key -> 'F3' | 'F30' | 'F41': a referenced placeholder of that key was popped by a miss
+        self.f8_keys = set()   # keys whose completed entry was popped / expired while a caller waited on it
+        self.evicted_any_inflight = None   # class of the first such eviction in this run
 
     # ------------------------------------------------------------------ monitor hits and their explanation
-    def hit(self, kind: str, key, msg: str):
+    def hit(self, kind: str, key, msg: str, info=None):
         self.mon.append(msg)
-        self.hits.append((kind, key, msg))
+        self.hits.append((kind, key, msg, info or {}))
 
     def explain(self, h):
-        """'F3' / 'F8' if the monitor hit h is a consequence of a known finding observed ON THE IMPLEMENTATION in
-        this history (for the key concerned), else None."""
-        kind, key, _ = h
+        """The known finding (exactly one) of which monitor hit h is a consequence, judged from what was observed on
+        the implementation in this history, else None."""
+        kind, key, _, info = h
+        if kind == "double_flight" and self.effmax == 0:
+            return "F32"
+        if kind == "double_flight" and info.get("cross_dict"):
+            return "F30"
         if kind in ("double_flight", "reuse", "keyerror"):
-            if key in self.f3_keys:
-                return "F3"
+            if key in self.evict_class:
+                return self.evict_class[key]
             if key in self.f8_keys:
                 return "F8"
             return None
         if kind == "exceeds":
-            return "F3" if self.f3_keys else None
+            if self.fu:
+                return "F31"
+            return self.evicted_any_inflight
+        if kind == "retention":
+            return info.get("cause")
         return None
 
     def unexplained(self):
@@ -99,8 +128,6 @@ class LruRun:
 
     # ------------------------------------------------------------------ set-up
     def __enter__(self):
-        self._sess = self.world.session()
-        self._sess.__enter__()
         from anyio.functools import lru_cache
 
         run = self
@@ -108,16 +135,20 @@ class LruRun:
         async def wrapped(x):
             c = run.cid_of[id(asyncio.current_task())]
             k = run.hkey(x)
-            ex = {"caller": c, "key": k, "start": run.stepno, "end": None, "outcome": None, "concurrent": False}
+            call = run.curcall.get(c)
+            dobj = call.get("dictobj") if call else None
+            if dobj is None and run.effmax != 0:
+                dobj = run.cur_dictobj()      # started within the Call step: the call's dict is the current one
+            ex = {"caller": c, "key": k, "start": run.stepno, "end": None, "outcome": None, "dict": id(dobj) if dobj is not None else None}
             others = run.running.setdefault(k, [])
-            if others and run.effmax != 0:
-                ex["concurrent"] = True
+            if others:
                 run.flags.add("double_flight")
-                run.hit("double_flight", k, f"single flight: caller {c} starts the wrapped function for key {k} while "
-                               f"caller {others[0]['caller']} is still executing it")
+                run.hit("double_flight", k,
+                        f"single flight: caller {c} starts the wrapped function for key {k} while caller "
+                        f"{others[0]['caller']} is still executing it",
+                        {"cross_dict": any(o["dict"] != ex["dict"] for o in others)})
             others.append(ex)
             run.execs.append(ex)
-            run.cur_exec[c] = ex
             fut = run.world.loop.create_future()
             run.wfut[c] = fut
             try:
@@ -134,19 +165,30 @@ class LruRun:
             finally:
                 ex["end"] = run.stepno
                 others.remove(ex)
-                run.cur_exec.pop(c, None)
                 run.wfut.pop(c, None)
 
         self.cached = lru_cache(maxsize=self.maxsize, typed=self.typed, always_checkpoint=self.ackpt,
                                 ttl=self.ttl)(wrapped)
+        self.start_loop(0.0)
+        return self
+
+    def start_loop(self, vtime: float):
+        from puppet import World
+
+        self.world = World()
+        self.world.loop._vtime = vtime
+        self._sess = self.world.session()
+        self._sess.__enter__()
         for c in range(self.ncall):
             self.world.spawn(c)
         self.cid_of = {id(p.task): c for c, p in self.world.puppets.items()}
-        return self
+
+    def end_loop(self):
+        self.world.close()
+        self._sess.__exit__(None, None, None)
 
     def __exit__(self, *a):
-        self.world.close()
-        self._sess.__exit__(*a)
+        self.end_loop()
 
     # ------------------------------------------------------------------ keys
     def hkey(self, x) -> int:
@@ -170,26 +212,38 @@ class LruRun:
             return -1
 
     # ------------------------------------------------------------------ observation
-    def real_dict(self):
+    def cur_dictobj(self):
         from anyio.functools import lru_cache_items
 
         try:
-            d = lru_cache_items.get().get(self.cached)
-        except LookupError:
-            d = None
-        return list(d.items()) if d else []
+            d = lru_cache_items.get(None)
+        except Exception:  # noqa: BLE001
+            return None
+        if not d:
+            return None
+        return d.get(self.cached)
+
+    def snap(self, d):
+        """{model key: (real key, entry)} of an entries dict, in order."""
+        if d is None:
+            return {}
+        return {self.dkey(t): (t, e) for t, e in list(d.items())}
 
     def observe_dict(self):
         out = []
-        items = self.real_dict()
+        d = self.cur_dictobj()
+        items = list(d.items()) if d is not None else []
         for t, (v, lock, exp) in items:
             k = self.dkey(t)
             if lock is not None:
                 st = lock.statistics()
-                out += [k, 0, 2 * st.tasks_waiting + (1 if st.locked else 0), 0]
+                out += [k, 0, 2 * st.tasks_waiting + (1 if st.locked else 0), 1 if id(lock) in self.counted else 0]
             else:
                 out += [k, 1, v if isinstance(v, int) else -1, 0 if exp is None else int(exp) + 1]
         return [len(items)] + out
+
+    def busy(self):
+        return [c for c, p in self.world.puppets.items() if not p.at_decision]
 
     def enabled(self):
         en = []
@@ -208,15 +262,16 @@ class LruRun:
                     en.append((1, c))
                     en.append((2, c))
         en.append((5, 0))
+        en.append((6, 0))
         if idle:
-            en.append((6, 0))
+            en.append((8, 0))
         return en
 
     def op_enabled(self, code, x) -> bool:
         en = self.enabled()
-        if code == 0:
+        if code in (0, 7):
             return ("call", x) in en and x < self.ncall
-        if code in (5, 6):
+        if code in (5, 6, 8):
             return (code, 0) in en
         return (code, x) in en
 
@@ -225,73 +280,167 @@ class LruRun:
             self.ref_order.remove(k)
         self.ref_order.append(k)
 
-    def served_unexpired(self, entry) -> bool:
+    def unexpired(self, entry) -> bool:
         exp = entry[2]
         return exp is None or self.world.loop.time() < exp
+
+    def run_other_handles(self):
+        """One round of the ready callbacks that are not task steps (cancel-scope delivery)."""
+        w = self.world
+        tasks = {id(p.task) for p in w.puppets.values()}
+        for h in list(w.loop.ready_handles()):
+            owner = getattr(h._callback, "__self__", None)
+            if id(owner) in tasks or isinstance(owner, asyncio.Task):
+                continue
+            if type(h._callback).__name__ == "TaskStepMethWrapper":
+                continue
+            if h in w.loop._ready:
+                w.loop.run_handle(h)
+
+    def live_excess(self):
+        """currsize minus the number of counted LIVE entries (results + placeholders of running computations) of the
+        current dict: > 0 means the wrapper-level count is inflated."""
+        d = self.cur_dictobj()
+        live = 0
+        if d is not None:
+            running_locks = {id(cl.get("lockobj")) for c, cl in self.curcall.items()
+                             if self.stage.get(c) == "wrapped" and cl.get("lockobj") is not None}
+            for _, (v, lock, _e) in list(d.items()):
+                if lock is None:
+                    live += 1
+                elif id(lock) in self.counted and id(lock) in running_locks:
+                    live += 1
+        return self.cached.cache_info().currsize - live
+
+    def inflation_cause(self):
+        if self.live_excess() > 0:
+            if self.fp:
+                return "F30"
+            if self.fd:
+                return "F41"
+        return None
 
     # ------------------------------------------------------------------ one op
     def do(self, code: int, x: int = 0, y: int = 0):
         w = self.world
         self.stepno += 1
-        before = {self.dkey(t): e for t, e in self.real_dict()}
-        waiting_keys = {self.curcall[c]["key"] for c, s in self.stage.items() if s == "lock"}
         info0 = self.cached.cache_info()
         nexec0 = len(self.execs)
+        cause0 = self.inflation_cause()
+        self.waiting0 = {(cl["key"], id(cl.get("dictobj"))) for c, cl in self.curcall.items()
+                         if self.stage.get(c) == "lock"}
         out = None
         actor = None
-        if code == 0:
+        call = None
+        dobj = None
+        before = {}
+        cur0 = self.cur_dictobj()
+        if code in (0, 7):
             actor = x
             arg = self.arg_of(y)
             cached = self.cached
-            call = {"caller": x, "key": self.hkey(arg), "begin": self.stepno, "T": w.loop.time(), "end": None,
-                    "result": None, "exec": None, "blocked": False, "overlap": None}
-            flying = [e for e in self.running.get(call["key"], [])]
+            k = self.hkey(arg)
+            call = {"caller": x, "key": k, "begin": self.stepno, "T": w.loop.time(), "end": None,
+                    "result": None, "exec": None, "blocked": False, "overlap": None, "dictobj": None,
+                    "lockobj": None, "scope_cancelled": code == 7}
+            before = self.snap(cur0)
+            flying = [e for e in self.running.get(k, []) if cur0 is not None and e["dict"] == id(cur0)]
             if flying:
                 call["overlap"] = flying[0]
+            if self.effmax == 0 and self.running.get(k):
+                self.fb = True
+                self.flags.add("bypass_concurrent")
             self.curcall[x] = call
             self.calls.append(call)
-            self.activity.append((self.stepno, call["key"]))
+            self.activity.append((self.stepno, k))
+            if code == 0:
+                async def cmd(p):
+                    return await cached(arg)
+            else:
+                self.cancel_req.add(x)
+                self.flags.add("call_in_cancelled_scope")
 
-            async def cmd(p):
-                return await cached(arg)
+                async def cmd(p):
+                    from anyio import CancelScope
+
+                    with CancelScope() as sc:
+                        sc.cancel()
+                        return await cached(arg)
+                    return SCOPE_CANCELLED
             out = w.act(x, cmd)
+            if self.effmax != 0:
+                self.has_dict_pub = True
+                dobj = self.cur_dictobj()
+                call["dictobj"] = dobj
+                self.keep.append(dobj)
         elif code == 1:
             self.wfut[x].set_result(y)
         elif code == 2:
             exc = EXC_CLASSES[y % len(EXC_CLASSES)](f"wrapped-{self.stepno}")
             self.curcall[x]["injected"] = exc
             self.wfut[x].set_exception(exc)
-            self.clean = False
         elif code == 3:
             w.puppets[x].task.cancel()
             self.cancel_req.add(x)
-            self.clean = False
             st = self.stage.get(x)
-            self.flags.add({"lock": "cancel_lock_wait", "wrapped": "cancel_in_wrapped",
+            self.flags.add({"lock": "cancel_lock_wait", "wrapped": "cancel_in_wrapped", "entry": "cancel_entry",
                             "hitck": "cancel_hit_checkpoint"}.get(st, "cancel_other"))
         elif code == 4:
             actor = x
-            self.activity.append((self.stepno, self.curcall[x]["key"]))
+            call = self.curcall[x]
+            dobj = call["dictobj"]
+            before = self.snap(dobj)
+            self.activity.append((self.stepno, call["key"]))
             out = w.resume(x)
         elif code == 5:
             w.loop.advance(1.0)
-        else:
-            self.cached.cache_clear()
-            self.clean = False
-            self.last_use.clear()
+        elif code == 6:
             self.flags.add("clear")
-            if self.effmax != 0:
+            if self.busy():
+                self.flags.add("clear_in_flight")
+            if self.has_dict_pub:
+                if self.busy():
+                    self.fp = True
                 self.exp_hits = self.exp_misses = 0
+                self.has_dict_pub = False
+                self.ref_order = []
+            self.cached.cache_clear()
+        else:
+            self.flags.add("new_loop")
+            if info0.currsize != 0:
+                self.fp = True
+                self.flags.add("new_loop_stale_count")
+            vt = w.loop.time()
+            self.end_loop()
+            self.start_loop(vt)
+            w = self.world
+            self.has_dict_pub = False
+            self.ref_order = []
+            self.stage.clear()
+            self.wfut.clear()
+            self.curcall.clear()
+        self.run_other_handles()
         # ---- classify what happened to the acting caller
         info1 = self.cached.cache_info()
         rk, rv = 5, 0
+        started = False
+        finished = False
         if actor is not None:
-            call = self.curcall[actor]
+            if out is not None and out[0] == "ok" and out[1] is SCOPE_CANCELLED:
+                out = ("exc", CancelledError())
             started = len(self.execs) > nexec0 and self.execs[-1]["caller"] == actor
             if started and call["exec"] is None:
                 call["exec"] = self.execs[-1]
                 if self.effmax != 0:
                     self.exp_misses += 1
+            after = self.snap(dobj)
+            k = call["key"]
+            if code in (0, 7) and dobj is not None:
+                if k in after and after[k][1][1] is not None:
+                    call["lockobj"] = after[k][1][1]
+                elif k in before and before[k][1][1] is not None:
+                    call["lockobj"] = before[k][1][1]      # its placeholder is already gone again
+                self.keep.append(call["lockobj"])
             if out is None:
                 rk, rv = 9, 0
             elif out[0] == "blocked":
@@ -299,96 +448,36 @@ class LruRun:
                 call["blocked"] = True
                 if started:
                     self.stage[actor] = "wrapped"
-                elif code == 0 and self.ackpt and self.effmax != 0 and call["key"] in before \
-                        and before[call["key"]][1] is None and self.served_unexpired(before[call["key"]]):
+                elif code in (0, 7) and self.ackpt and self.effmax != 0 and k in before \
+                        and before[k][1][1] is None and self.unexpired(before[k][1]):
                     # a completed, unexpired entry was there: the call is in the hit checkpoint
                     self.stage[actor] = "hitck"
                     self.flags.add("hit_checkpoint")
                     call["hit_counted"] = True
                     self.exp_hits += 1
+                elif code == 7:
+                    lk = call["lockobj"]
+                    queued = lk is not None and lk.statistics().tasks_waiting > 0 and not started
+                    # free lock: suspended in checkpoint_if_cancelled; contended: queued (and cancelled at once)
+                    self.stage[actor] = "lock" if (queued and self.blocked_in_lock(actor, lk)) else "entry"
                 elif code == 0:
                     self.stage[actor] = "lock"
                     if call["overlap"] is not None:
                         self.flags.add("contended_wait")
             else:
-                self.stage.pop(actor, None)
+                finished = True
+                st_prev = self.stage.pop(actor, None)
                 self.curcall.pop(actor, None)
                 call["end"] = self.stepno
-                rk, rv = self.finish_call(actor, call, out)
+                call["stage_at_end"] = st_prev
+                rk, rv = self.finish_call(actor, call, out, cause0)
                 if rk == 0 and call["exec"] is None and not call.get("hit_counted"):
                     self.exp_hits += 1
                 if rk == 0 and self.effmax == 0:
                     self.exp_misses += 1
-        # ---- reference recency order, driven by what the callers observed (install at the end when a key is
-        #      first requested, refresh on every served call at the moment it is served, stores keep the position)
-        after = {self.dkey(t): e for t, e in self.real_dict()}
-        started_now = False
-        if actor is not None:
-            started_now = bool(self.execs) and len(self.execs) > nexec0 and self.execs[-1]["caller"] == actor
-        if code == 6:
-            self.ref_order = []
-        elif actor is not None and self.effmax != 0:
-            k = call["key"]
-            finished = out is not None and out[0] != "blocked"
-            if code == 0:
-                if call.get("hit_counted") or (finished and rk == 0 and call["exec"] is None):
-                    self.ref_touch(k)
-                elif k not in self.ref_order:
-                    self.ref_order.append(k)
-                elif k in before and before[k][1] is None and not self.served_unexpired(before[k]):
-                    self.ref_touch(k)              # expired: recomputed now, which is a use (F15)
-                    self.flags.add("expiry_recompute")
-            elif finished and rk == 0:
-                if call["exec"] is None and not call.get("hit_counted"):
-                    self.ref_touch(k)              # waited for the flight and reused its result
-                elif call["exec"] is not None and k not in self.ref_order:
-                    self.ref_order.append(k)       # stored after its placeholder had gone
-        # ---- evictions and ttl replacements as the IMPLEMENTATION performed them (cache dict before / after)
-        if code != 6:
-            for k, e in before.items():
-                if k not in after:
-                    if not started_now:
-                        self.flags.add("removal_outside_miss")
-                        continue
-                    # popitem at the miss of the acting caller
-                    expected = self.ref_order[0] if self.ref_order else None
-                    if expected is not None and k != expected:
-                        self.hit("lru_order", k, f"LRU order: the miss of caller {actor} evicted key {k} although key "
-                                                 f"{expected} is the least recently used (recency {self.ref_order})")
-                    if k in self.ref_order:
-                        self.ref_order.remove(k)
-                    if e[1] is not None:
-                        self.fi = True
-                        self.f3_keys.add(k)
-                        self.flags.add("evict_inflight")
-                    else:
-                        self.flags.add("evict_value")
-                        if k in waiting_keys:
-                            self.fw = True
-                            self.f8_keys.add(k)
-                            self.flags.add("evict_waited")
-                elif e[1] is None and after[k][1] is not None:
-                    if code == 0 and not self.served_unexpired(e):
-                        self.flags.add("ttl_expiry_replaced")
-                        if k in waiting_keys:
-                            self.fw = True
-                            self.f8_keys.add(k)
-                            self.flags.add("evict_waited")
-                    else:
-                        self.flags.add("replacement_without_expiry")
-        if code != 6 and started_now and self.effmax != 0 and call["key"] not in after and call["key"] not in before:
-            # the acting caller installed its placeholder and its own miss popped it again within this step
-            k = call["key"]
-            expected = self.ref_order[0] if self.ref_order else None
-            if expected is not None and k != expected:
-                self.hit("lru_order", k, f"LRU order: the miss of caller {actor} evicted key {k} although key "
-                                         f"{expected} is the least recently used (recency {self.ref_order})")
-            if k in self.ref_order:
-                self.ref_order.remove(k)
-            self.fi = True
-            self.f3_keys.add(k)
-            self.flags.add("evict_inflight")
-        obs = [rk, rv, info1.hits, info1.misses, info1.currsize, int(self.fi), int(self.fw)] + self.observe_dict()
+            self.after_actor_step(code, actor, call, dobj, before, after, started, finished, rk, cause0)
+        obs = ([rk, rv, info1.hits, info1.misses, info1.currsize] +
+               [int(b) for b in (self.fi, self.fw, self.fu, self.fd, self.fp, self.fb)] + self.observe_dict())
         self.ops += [code, x, y]
         self.outs += obs
         self.step_obs.append(obs)
@@ -396,16 +485,112 @@ class LruRun:
             self.hit("cacheinfo", None, f"cache_info reports maxsize={info1.maxsize} ttl={info1.ttl}")
         if (info1.hits, info1.misses) != (self.exp_hits, self.exp_misses) and not self.acct_reported:
             self.acct_reported = True
-            self.hit("accounting", None, f"cache_info accounting: hits={info1.hits} misses={info1.misses} but the history has "
-                            f"{self.exp_hits} calls served from the cache and {self.exp_misses} executions")
+            self.hit("accounting", None, f"cache_info accounting: hits={info1.hits} misses={info1.misses} but the "
+                                         f"history has {self.exp_hits} calls served from the cache and "
+                                         f"{self.exp_misses} executions")
         return rk, rv
 
+    def blocked_in_lock(self, c, lk) -> bool:
+        try:
+            return any(t is self.world.puppets[c].task for (t, _f) in lk._waiters)
+        except Exception:  # noqa: BLE001
+            return True
+
+    # ------------------------------------------------------------------ evictions, recency, predicates
+    def referenced(self, lock, but=None) -> bool:
+        """some call in progress holds this lock or is suspended in its acquire()"""
+        for c, cl in self.curcall.items():
+            if self.stage.get(c) in ("lock", "wrapped") and cl.get("lockobj") is lock:
+                return True
+        return False
+
+    def after_actor_step(self, code, actor, call, dobj, before, after, started, finished, rk, cause0):
+        if self.effmax == 0 or dobj is None:
+            return
+        k = call["key"]
+        is_cur = dobj is self.cur_dictobj()
+        # callers that were suspended in lock.acquire() of this dict when the step began
+        waiting_keys = {kk for (kk, d) in self.waiting0 if d == id(dobj)}
+        # ---- reference recency order of the current dict
+        if is_cur:
+            if code in (0, 7):
+                if call.get("hit_counted") or (finished and rk == 0 and call["exec"] is None):
+                    self.ref_touch(k)
+                elif k not in self.ref_order:
+                    self.ref_order.append(k)
+                elif k in before and before[k][1][1] is None and not self.unexpired(before[k][1]):
+                    self.ref_touch(k)              # expired: recomputed now, which is a use (F15)
+                    self.flags.add("expiry_recompute")
+            elif finished and rk == 0:
+                if call["exec"] is None and not call.get("hit_counted"):
+                    self.ref_touch(k)              # waited for the flight and reused its result
+                elif call["exec"] is not None and k not in self.ref_order:
+                    self.ref_order.append(k)       # stored after its placeholder had gone
+        # ---- the placeholder a miss has just counted
+        if started:
+            if k in after and after[k][1][1] is not None:
+                self.counted.add(id(after[k][1][1]))
+                self.keep.append(after[k][1][1])
+        # ---- entries the miss of the acting caller popped
+        popped = [(kk, e) for kk, (_t, e) in before.items() if kk not in after]
+        if started and k not in after and k not in before:
+            # installed and popped again within this step: its own, referenced placeholder
+            popped.append((k, (None, call, None)))
+        for kk, e in popped:
+            if not started:
+                self.flags.add("removal_outside_miss")
+                continue
+            if is_cur:
+                expected = self.ref_order[0] if self.ref_order else None
+                if expected is not None and kk != expected:
+                    self.hit("lru_order", kk, f"LRU order: the miss of caller {actor} evicted key {kk} although key "
+                                              f"{expected} is the least recently used (recency {self.ref_order})")
+                if kk in self.ref_order:
+                    self.ref_order.remove(kk)
+            lock = e[1]
+            if lock is not None:
+                own = lock is call or lock is call.get("lockobj")
+                if own or self.referenced(lock):
+                    self.fi = True
+                    cls = cause0 or "F3"
+                    self.evict_class.setdefault(kk, cls)
+                    if self.evicted_any_inflight is None:
+                        self.evicted_any_inflight = cls
+                    self.flags.add("evict_inflight")
+                elif id(lock) not in self.counted:
+                    self.fu = True
+                    self.flags.add("evict_uncounted_placeholder")
+                else:
+                    self.flags.add("evict_dead_counted_placeholder")
+            else:
+                self.flags.add("evict_value")
+                if kk in waiting_keys:
+                    self.fw = True
+                    self.f8_keys.add(kk)
+                    self.flags.add("evict_waited")
+        # ---- ttl replacement
+        if code in (0, 7) and k in before and k in after and before[k][1][1] is None and after[k][1][1] is not None:
+            if not self.unexpired(before[k][1]):
+                self.flags.add("ttl_expiry_replaced")
+                if k in waiting_keys:
+                    self.fw = True
+                    self.f8_keys.add(k)
+                    self.flags.add("evict_waited")
+            else:
+                self.flags.add("replacement_without_expiry")
+        # ---- a computation ended without a result and left its counted placeholder behind
+        if finished and call["exec"] is not None and rk in (2, 3):
+            if k in after and after[k][1][1] is not None and id(after[k][1][1]) in self.counted:
+                self.fd = True
+                self.flags.add("dead_placeholder_counted")
+
     # ------------------------------------------------------------------ monitors evaluated when a call finishes
-    def finish_call(self, c, call, out):
+    def finish_call(self, c, call, out, cause0):
         kind, val = out
         k = call["key"]
         ex = call["exec"]
         call["result"] = out
+        dobj = call["dictobj"]
         if kind == "ok":
             if not isinstance(val, int):
                 self.hit("value", k, f"value faithful: caller {c} key {k} got {val!r}")
@@ -413,11 +598,11 @@ class LruRun:
             src = self.stored_at.get(val)
             if src is None or src[0] != k:
                 self.hit("value", k, f"value faithful: caller {c} asked for key {k} and got {val}, which the wrapped "
-                                f"function never returned for that key")
+                                     f"function never returned for that key")
             elif ex is not None:
                 if ex["outcome"] != ("ret", val):
                     self.hit("value", k, f"value faithful: caller {c} key {k}: own execution ended with "
-                                    f"{ex['outcome']} but the call returned {val}")
+                                         f"{ex['outcome']} but the call returned {val}")
             else:
                 # served from the cache / from somebody else's flight
                 self.flags.add("hit")
@@ -428,20 +613,18 @@ class LruRun:
                 read_step = call["begin"] if call.get("hit_counted") else self.stepno
                 call["read_step"] = read_step
                 latest = max((e for e in self.execs if e["key"] == k and e["outcome"] and e["outcome"][0] == "ret"
-                              and e["end"] <= read_step),
+                              and e["end"] <= read_step and e["dict"] == (id(dobj) if dobj is not None else None)),
                              key=lambda e: e["end"], default=None)
                 if latest is not None and latest["outcome"][1] != val:
                     self.hit("stale", k, f"stale value: caller {c} key {k} was served {val} although the latest "
-                                    f"completed execution returned {latest['outcome'][1]}")
+                                         f"completed execution returned {latest['outcome'][1]}")
                 if self.ttl is not None and src[1] < call["begin"] and call["T"] >= src[2] + self.ttl:
                     self.hit("expired", k, f"expired entry served: caller {c} key {k} called at t={call['T']} and was "
-                                    f"served {val} computed at t={src[2]} (ttl={self.ttl})")
-                self.last_use[k] = self.stepno
+                                           f"served {val} computed at t={src[2]} (ttl={self.ttl})")
             if ex is not None and ex["outcome"] == ("ret", val):
-                self.last_use[k] = self.stepno
                 self.flags.add("miss_completed")
                 self.check_reuse(c, call)
-                self.check_retention(c, call)
+                self.check_retention(c, call, cause0)
             return 0, val
         e = val
         if isinstance(e, CancelledError):
@@ -468,7 +651,7 @@ class LruRun:
 
     def check_reuse(self, c, call):
         """later callers reuse the first result: c started an execution of its own although the flight that was
-        in progress when it called has meanwhile completed successfully."""
+        in progress (in the same entries dict) when it called has meanwhile completed successfully."""
         ov = call["overlap"]
         ex = call["exec"]
         if self.effmax == 0 or ov is None or ex is None:
@@ -477,20 +660,25 @@ class LruRun:
             v = ov["outcome"][1]
             if self.ttl is not None and self.world.loop.time() >= self.stored_at[v][2] + self.ttl:
                 return
-            self.hit("reuse", call["key"], f"single flight / reuse: caller {c} key {call['key']} called while caller "
-                            f"{ov['caller']} was computing, that flight returned {v}, and {c} executed the wrapped "
-                            f"function again")
+            self.hit("reuse", call["key"],
+                     f"single flight / reuse: caller {c} key {call['key']} called while caller {ov['caller']} was "
+                     f"computing, that flight returned {v}, and {c} executed the wrapped function again")
 
-    def check_retention(self, c, call):
-        """LRU lower bound on clean histories: a key survives while fewer than maxsize distinct other keys have
-        been active since its last use."""
+    def check_retention(self, c, call, cause0):
+        """LRU lower bound: a key survives (in the same entries dict) while fewer than maxsize distinct other keys have
+        been used since its last use.  The argument behind it: a key is popped only when it is the oldest item and
+        currsize >= maxsize; if currsize equals the number of counted items (no phantom count F30, no dead counted
+        placeholder F41), maxsize - 1 other counted items plus the evictor's key were all installed or refreshed after
+        it.  Failures, cancellations and cache_clear() are therefore NOT excluded: when they inflate the count the hit
+        is attributed to F30 / F41 from the observed state, an in-flight / waited eviction to F3 / F8."""
         k = call["key"]
-        if not self.clean or self.effmax == 0 or self.fi or self.fw:
+        dobj = call["dictobj"]
+        if self.effmax == 0 or dobj is None:
             return
         if self.ttl is not None:
             # a recomputation is legitimate when the latest value of the key had expired when the call began
             done = [e for e in self.execs if e["key"] == k and e["outcome"] and e["outcome"][0] == "ret"
-                    and e["end"] < call["begin"]]
+                    and e["end"] < call["begin"] and e["dict"] == id(dobj)]
             if done:
                 v = max(done, key=lambda e: e["end"])["outcome"][1]
                 if call["T"] >= self.stored_at[v][2] + self.ttl:
@@ -498,6 +686,8 @@ class LruRun:
         t1 = None
         for prev in self.calls:
             if prev is call or prev["key"] != k or prev["end"] is None or prev["end"] >= call["begin"]:
+                continue
+            if prev["dictobj"] is not dobj:
                 continue
             if prev["result"] and prev["result"][0] == "ok":
                 # the position of the entry dates from the install / last move_to_end, i.e. not before the
@@ -509,43 +699,20 @@ class LruRun:
         others |= {cc["key"] for cc in self.calls if cc["key"] != k and cc["begin"] <= t1 and
                    (cc["end"] is None or cc["end"] >= t1)}
         if self.effmax is None or len(others) < self.effmax:
+            cause = cause0 or self.inflation_cause()
+            if cause is None and self.fp:
+                cause = "F30"
+            if cause is None and self.fd:
+                cause = "F41"
+            if cause is None and self.fi:
+                cause = self.evicted_any_inflight
+            if cause is None and self.fw:
+                cause = "F8"
             self.hit("retention", k, f"LRU retention: key {k} was recomputed by caller {c} although only "
-                            f"{len(others)} other keys were used since its last use (maxsize={self.effmax})")
+                                     f"{len(others)} other keys were used since its last use (maxsize={self.effmax})",
+                     {"cause": cause})
 
     # ------------------------------------------------------------------ end of case
-    def quiesce(self):
-        """Drive every caller out of its call, then probe every key once (a hit proves the key was retained)."""
-        w = self.world
-        for _ in range(400):
-            busy = [c for c, p in w.puppets.items() if not p.at_decision]
-            if not busy:
-                break
-            progressed = False
-            for c in busy:
-                p = w.puppets[c]
-                if p.at_decision:
-                    continue
-                f = self.wfut.get(c)
-                if self.stage.get(c) == "wrapped" and f is not None and not f.done():
-                    self.do(1, c, self.fresh())
-                    progressed = True
-                if w.runnable(p):
-                    self.do(4, c, 0)
-                    progressed = True
-            if not progressed:
-                self.do(3, busy[0], 0)
-        keys = []
-        for cl in self.calls:
-            if cl["key"] not in keys:
-                keys.append(cl["key"])
-        if self.effmax != 0:
-            for k in reversed(keys):
-                a = k if self.typed else 2 * k
-                self.probe(0, a)
-        self.retention_bound()
-        if w.loop.errors:
-            self.hit("loop", None, f"loop errors: {w.loop.errors[:2]}")
-
     def settle(self, c, finish=True):
         """run caller c's call forward: up to the wrapped function, and if `finish` to its end"""
         w = self.world
@@ -563,6 +730,40 @@ class LruRun:
             else:
                 return
 
+    def quiesce(self):
+        """Drive every caller out of its call, then probe every key once (a hit proves the key was retained)."""
+        w = self.world
+        for _ in range(400):
+            busy = self.busy()
+            if not busy:
+                break
+            progressed = False
+            for c in busy:
+                p = w.puppets[c]
+                if p.at_decision:
+                    continue
+                f = self.wfut.get(c)
+                if self.stage.get(c) == "wrapped" and f is not None and not f.done():
+                    self.do(1, c, self.fresh())
+                    progressed = True
+                if w.runnable(p):
+                    self.do(4, c, 0)
+                    progressed = True
+            if not progressed:
+                self.do(3, busy[0], 0)
+        cur = self.cur_dictobj()
+        keys = []
+        for cl in self.calls:
+            if cl["key"] not in keys and cl["dictobj"] is cur and cur is not None:
+                keys.append(cl["key"])
+        if self.effmax != 0:
+            for k in reversed(keys):
+                a = k if self.typed else 2 * k
+                self.probe(0, a)
+        self.retention_bound()
+        if w.loop.errors:
+            self.hit("loop", None, f"loop errors: {w.loop.errors[:2]}")
+
     def fresh(self):
         v = self.nextval
         self.nextval += 1
@@ -579,22 +780,23 @@ class LruRun:
 
     def retention_bound(self):
         """At most maxsize results retained: a value served at step t' that was produced at step te <= t was in the
-        cache during [te, t']; at no time may more than maxsize keys be provably retained."""
+        cache during [te, t']; at no time may more than maxsize keys of one entries dict be provably retained."""
         if self.effmax is None or self.effmax == 0:
             return
-        iv = []
+        per = {}
         for cl in self.calls:
-            if cl["result"] and cl["result"][0] == "ok" and cl["exec"] is None:
+            if cl["result"] and cl["result"][0] == "ok" and cl["exec"] is None and cl["dictobj"] is not None:
                 src = self.stored_at.get(cl["result"][1])
                 if src is not None:
-                    iv.append((src[1], cl.get("read_step", cl["end"]), cl["key"]))
-        for t in sorted({b for (_, b, _) in iv}):
-            ks = {k for (a, b, k) in iv if a <= t <= b}
-            if len(ks) > self.effmax:
-                self.flags.add("exceeds_maxsize")
-                self.hit("exceeds", None, f"bounded retention: keys {sorted(ks)} were all retained at step {t} "
-                                f"(maxsize={self.effmax})")
-                return
+                    per.setdefault(id(cl["dictobj"]), []).append((src[1], cl.get("read_step", cl["end"]), cl["key"]))
+        for iv in per.values():
+            for t in sorted({b for (_, b, _) in iv}):
+                ks = {k for (a, b, k) in iv if a <= t <= b}
+                if len(ks) > self.effmax:
+                    self.flags.add("exceeds_maxsize")
+                    self.hit("exceeds", None, f"bounded retention: keys {sorted(ks)} were all retained at step {t} "
+                                              f"(maxsize={self.effmax})")
+                    return
 
     def case(self):
         return [opt_code(self.maxsize), opt_code(self.ttl), int(self.ackpt), int(self.typed), self.ncall] + self.ops
@@ -605,9 +807,12 @@ class LruRun:
 
 
 # ---------------------------------------------------------------------------------------------------------
+def new_run(cfg):
+    return LruRun(cfg["maxsize"], cfg["ttl"], cfg["always_checkpoint"], cfg["typed"], cfg["ncall"])
+
+
 def run_script(cfg, flat_ops, quiesce=True, strict=False):
-    with LruRun(cfg["maxsize"], cfg["ttl"], cfg["always_checkpoint"], cfg["typed"], cfg["ncall"]) as r:
-        r.valid = True
+    with new_run(cfg) as r:
         r.enabled_at_end = []
         try:
             for i in range(0, len(flat_ops), 3):
@@ -642,9 +847,10 @@ def random_case(rng: random.Random, nsteps: int):
     cfg = random_cfg(rng)
     nkeys = rng.choice([1, 2, 3, 4])
     wts = {"call": 6, 1: 5, 2: rng.choice([0.3, 1.5]), 3: rng.choice([0.2, 1, 3]), 4: 7,
-           5: (rng.choice([0.5, 2]) if cfg["ttl"] is not None else 0.05), 6: 0.15}
-    with LruRun(cfg["maxsize"], cfg["ttl"], cfg["always_checkpoint"], cfg["typed"], cfg["ncall"]) as r:
-        r.valid = True
+           5: (rng.choice([0.5, 2]) if cfg["ttl"] is not None else 0.05), 6: rng.choice([0.1, 0.1, 0.6]),
+           8: rng.choice([0.0, 0.0, 0.5])}
+    px = rng.choice([0.0, 0.0, 0.15, 0.4])
+    with new_run(cfg) as r:
         try:
             for _ in range(nsteps):
                 en = r.enabled()
@@ -652,7 +858,7 @@ def random_case(rng: random.Random, nsteps: int):
                 if c == "call":
                     v = rng.randrange(nkeys)
                     a = 2 * v + (1 if rng.random() < (0.3 if cfg["typed"] else 0.1) else 0)
-                    r.do(0, x, a)
+                    r.do(7 if rng.random() < px else 0, x, a)
                 elif c == 1:
                     r.do(1, x, r.fresh())
                 elif c == 2:
@@ -673,27 +879,9 @@ def directed_case(rng: random.Random):
     m = rng.choice([None, 2, 2, 3, 4])
     cfg = {"maxsize": m, "ttl": rng.choice([None, None, 5]), "always_checkpoint": rng.random() < 0.3,
            "typed": False, "ncall": 4}
-    with LruRun(cfg["maxsize"], cfg["ttl"], cfg["always_checkpoint"], cfg["typed"], cfg["ncall"]) as r:
-        r.valid = True
+    with new_run(cfg) as r:
         r.flags.add("directed")
         w = r.world
-
-        def settle(c, finish=True):
-            """run caller c's call forward: to the wrapped function, and if `finish` to its end"""
-            for _ in range(8):
-                p = w.puppets[c]
-                if p.at_decision:
-                    return
-                f = r.wfut.get(c)
-                if r.stage.get(c) == "wrapped" and f is not None and not f.done():
-                    if not finish:
-                        return
-                    r.do(1, c, r.fresh())
-                if w.runnable(p):
-                    r.do(4, c, 0)
-                else:
-                    return
-
         try:
             keys = list(range(6))
             rng.shuffle(keys)
@@ -703,17 +891,17 @@ def directed_case(rng: random.Random):
             if order:
                 for kb in others[:nb]:
                     r.do(0, 1, 2 * kb)
-                    settle(1)
+                    r.settle(1)
             r.do(0, 0, 2 * a_key)                      # the flight of A
-            settle(0, finish=False)
+            r.settle(0, finish=False)
             if not order:
                 for kb in others[:nb]:
                     r.do(0, 1, 2 * kb)
-                    settle(1)
+                    r.settle(1)
             for kb in others[:nb]:
                 if rng.random() < 0.4:                 # hits on the other keys while A is in flight
                     r.do(0, 1, 2 * kb)
-                    settle(1)
+                    r.settle(1)
             waiters = [2] if rng.random() < 0.6 else [2, 3]
             for c in waiters:
                 r.do(0, c, 2 * a_key)
@@ -730,12 +918,12 @@ def directed_case(rng: random.Random):
                 r.do(4, 0, 0)
             if extra is not None and w.puppets[1].at_decision:
                 r.do(0, 1, 2 * rng.choice(others[:nb] or [others[0]]))
-                settle(1)
+                r.settle(1)
             for c in waiters:
-                settle(c)
+                r.settle(c)
             for kc in others[nb:nb + rng.choice([1, 1, 2])]:
                 r.do(0, 1, 2 * kc)                     # new keys: evictions
-                settle(1)
+                r.settle(1)
             r.quiesce()
         except Exception as e:  # noqa: BLE001
             r.crash = f"{type(e).__name__}: {e}"
@@ -750,8 +938,7 @@ def ttl_case(rng: random.Random):
     cfg = {"maxsize": rng.choice([2, 2, 3]), "ttl": rng.choice([1, 2, 2, 3]), "always_checkpoint": rng.random() < 0.25,
            "typed": False, "ncall": 3}
     nkeys = cfg["maxsize"] + rng.choice([1, 1, 2])
-    with LruRun(cfg["maxsize"], cfg["ttl"], cfg["always_checkpoint"], cfg["typed"], cfg["ncall"]) as r:
-        r.valid = True
+    with new_run(cfg) as r:
         r.flags.add("directed_ttl")
         w = r.world
         try:
@@ -767,7 +954,7 @@ def ttl_case(rng: random.Random):
                 c = rng.choice(idle)
                 k = rng.choice(recent[-2:]) if recent and rng.random() < 0.45 else rng.randrange(nkeys)
                 recent.append(k)
-                r.do(0, c, 2 * k)
+                r.do(7 if rng.random() < 0.08 else 0, c, 2 * k)
                 if rng.random() < 0.85:
                     r.settle(c)
                 else:
@@ -779,7 +966,119 @@ def ttl_case(rng: random.Random):
         return r
 
 
-def exhaustive_cases(cfg, nkeys: int, depth: int):
+def findings_case(rng: random.Random):
+    """Directed family for F30 / F31 / F32 / F41: (a) two consecutive loops on one wrapper, (b) calls aborted while
+    entering the lock (cancelled scope, native cancel in the shielded checkpoint, ttl-expired path) followed by
+    ordinary traffic, (c) cache_clear() racing a flight, (d) maxsize=0 with concurrent equal calls,
+    (e) failed / cancelled computations followed by retries and ordinary traffic."""
+    fam = rng.choice("aabbccdee")
+    ack = rng.random() < 0.35
+    if fam == "d":
+        cfg = {"maxsize": rng.choice([0, 0, -1]), "ttl": None, "always_checkpoint": ack, "typed": False, "ncall": 3}
+    else:
+        cfg = {"maxsize": rng.choice([1, 2, 2, 3]), "ttl": rng.choice([None, None, 2]) if fam == "b" else None,
+               "always_checkpoint": ack, "typed": False, "ncall": 4}
+    m = cfg["maxsize"]
+    with new_run(cfg) as r:
+        r.flags.add("directed_" + fam)
+        try:
+            def seq(c, k, x=False):
+                r.do(7 if x else 0, c, 2 * k)
+                r.settle(c)
+
+            def together(k, callers, outcome="ret"):
+                for c in callers:
+                    r.do(0, c, 2 * k)
+                for c in callers:
+                    r.settle(c, finish=False)
+                first = True
+                for c in callers:
+                    if r.stage.get(c) == "wrapped" and c in r.wfut and not r.wfut[c].done():
+                        if first and outcome == "exc":
+                            r.do(2, c, 0)
+                        elif first and outcome == "cancel":
+                            r.do(3, c, 0)
+                        first = False
+                    r.settle(c)
+                for c in callers:
+                    r.settle(c)
+
+            if fam == "a":
+                for k in range(rng.choice([m, m, m + 1])):
+                    seq(0, k)
+                r.do(8, 0, 0)
+                if rng.random() < 0.4:
+                    r.do(6, 0, 0)
+                together(7, [0, 1, 2], rng.choice(["ret", "ret", "exc", "cancel"]))
+                for k in [4, 5, 4, 6, 5]:
+                    seq(rng.randrange(2), k)
+                if rng.random() < 0.3:
+                    r.do(8, 0, 0)
+                    seq(0, 4)
+                    seq(0, 4)
+            elif fam == "b":
+                n = rng.choice([1, 2, 3])
+                for i in range(n):
+                    how = rng.choice(["scope", "scope", "native"])
+                    if how == "scope" or not ack:
+                        r.do(7, i % 3, 2 * (10 + i))
+                        r.settle(i % 3)
+                    else:
+                        r.do(0, i % 3, 2 * (10 + i))
+                        if r.stage.get(i % 3) == "lock":
+                            r.do(3, i % 3, 0)
+                        r.settle(i % 3)
+                if cfg["ttl"] is not None:
+                    seq(0, 9)
+                    r.do(5, 0, 0)
+                    r.do(5, 0, 0)
+                    seq(0, 9, x=True)
+                for k in range(m + n + 1):
+                    seq(3, k)
+            elif fam == "c":
+                r.do(0, 0, 2)
+                r.settle(0, finish=False)
+                if rng.random() < 0.7:
+                    r.do(0, 1, 2)
+                r.do(6, 0, 0)
+                if rng.random() < 0.3:
+                    r.do(6, 0, 0)
+                end = rng.choice(["cancel", "exc", "ret"])
+                if r.stage.get(0) == "wrapped":
+                    r.do({"cancel": 3, "exc": 2, "ret": 1}[end], 0, r.fresh() if end == "ret" else 0)
+                r.settle(0)
+                r.settle(1)
+                together(5, [0, 1, 2])
+                for k in [6, 5, 7]:
+                    seq(3, k)
+            elif fam == "d":
+                together(1, [0, 1, 2], rng.choice(["ret", "exc"]))
+                r.do(7, 0, 2)
+                r.settle(0)
+                r.do(6, 0, 0)
+                together(1, [0, 1])
+            else:
+                for i in range(rng.choice([1, 2])):
+                    r.do(0, 0, 2 * i)
+                    r.settle(0, finish=False)
+                    if rng.random() < 0.5:
+                        r.do(0, 1, 2 * i)
+                    if r.stage.get(0) == "wrapped":
+                        r.do(rng.choice([2, 3]), 0, 0)
+                    r.settle(0)
+                    r.settle(1)
+                    if rng.random() < 0.6:
+                        seq(2, i)              # retry of the same key
+                for k in [4, 5, 4, 6, 4, 5]:
+                    seq(3, k)
+            r.quiesce()
+        except Exception as e:  # noqa: BLE001
+            r.crash = f"{type(e).__name__}: {e}"
+            r.valid = False
+        return r
+
+
+def exhaustive_cases(cfg, nkeys: int, depth: int, with_clear=False):
     """All op sequences up to `depth` that the implementation enables (DFS by replay), callers used in order."""
     results = []
 
@@ -788,7 +1087,7 @@ def exhaustive_cases(cfg, nkeys: int, depth: int):
         if len(prefix) // 3 >= depth:
             results.append(r)
             return
-        used = {prefix[i + 1] for i in range(0, len(prefix), 3) if prefix[i] == 0}
+        used = {prefix[i + 1] for i in range(0, len(prefix), 3) if prefix[i] in (0, 7)}
         nxt = min(set(range(cfg["ncall"])) - used, default=None)
         nv = 1 + sum(1 for i in range(0, len(prefix), 3) if prefix[i] == 1)
         leaf = True
@@ -799,6 +1098,8 @@ def exhaustive_cases(cfg, nkeys: int, depth: int):
                 for k in range(nkeys):
                     leaf = False
                     rec(prefix + [0, x, 2 * k])
+                if with_clear:
+                    rec(prefix + [7, x, 0])
             elif c == 1:
                 leaf = False
                 rec(prefix + [1, x, nv])
@@ -811,6 +1112,9 @@ def exhaustive_cases(cfg, nkeys: int, depth: int):
             elif c == 5 and cfg["ttl"] is not None:
                 leaf = False
                 rec(prefix + [5, 0, 0])
+            elif c in (6, 8) and with_clear and prefix:
+                leaf = False
+                rec(prefix + [c, 0, 0])
         if leaf:
             results.append(r)
 
@@ -818,28 +1122,8 @@ def exhaustive_cases(cfg, nkeys: int, depth: int):
     return results
 
 
-def classify(r, model_flags=None):
-    """Known-finding class of a run: 'F3', 'F8' or None (model's verdict when available, else the harness' own)."""
-    fi, fw = (r.fi, r.fw) if model_flags is None else model_flags
-    if fi:
-        return "F3"
-    if fw:
-        return "F8"
-    return None
-
-
-def model_final_flags(m):
-    """f_inflight / f_waited after the last step of a model output line."""
-    i = 0
-    fl = None
-    while i + 8 <= len(m):
-        fl = (bool(m[i + 5]), bool(m[i + 6]))
-        i += 8 + 4 * m[i + 7]
-    return fl
-
-
 def shrink(cfg, ops):
-    """Drop ops while some monitor still trips on a history without known-finding predicate."""
+    """Drop ops while some monitor still trips unexplained."""
     def bad(o):
         try:
             r = run_script(cfg, o, quiesce=True, strict=True)
@@ -867,20 +1151,24 @@ def shrink(cfg, ops):
 def split_steps(flat):
     out = []
     i = 0
-    while i + 8 <= len(flat):
-        n = 8 + 4 * flat[i + 7]
+    while i + HDR <= len(flat):
+        n = HDR + 4 * flat[i + HDR - 1]
         out.append(flat[i:i + n])
         i += n
     return out
 
 
+FAMILIES = (directed_case, ttl_case, findings_case, findings_case)
+
+
 def check(tier: str) -> int:
     rep = core.Report("C20", tier)
     rep.assumptions = core.TRUSTED_BASE_COMMON + [
-        "model prims/Lru.v hand-written from functools.py:100-216 with an embedded prims/Lock.v per placeholder; "
-        "cancellation modelled as native Task.cancel() on a blocked caller; the wrapped function always suspends "
-        "once (a non-suspending wrapped function is the special case WrappedReturns;Resume scheduled back to back); "
-        "cache_clear() only with no call in progress; keyword arguments not exercised",
+        "model prims/Lru.v hand-written from functools.py:100-217 with an embedded prims/Lock.v per placeholder; "
+        "cancellation modelled as native Task.cancel() on a blocked caller plus calls issued inside an already "
+        "cancelled scope; the wrapped function always suspends once (a non-suspending wrapped function is the special "
+        "case WrappedReturns;Resume scheduled back to back); a new event loop starts only with no call in progress; "
+        "keyword arguments not exercised",
         "collections.OrderedDict semantics (assignment keeps position, move_to_end, popitem(last=False)) as modelled",
     ]
     proofs_ok = core.proof_stage(rep, "props/C20.v")
@@ -898,16 +1186,18 @@ def check(tier: str) -> int:
     n_random = 350 if tier == "quick" else 9000
     for _ in range(n_random):
         runs.append(random_case(rng, rng.choice([6, 10, 16, 24, 40])))
-    n_directed = 240 if tier == "quick" else 4000
+    n_directed = 360 if tier == "quick" else 6000
     for i in range(n_directed):
-        runs.append(directed_case(rng) if i % 2 == 0 else ttl_case(rng))
+        runs.append(FAMILIES[i % len(FAMILIES)](rng))
     base = {"ttl": None, "always_checkpoint": False, "typed": False}
     if tier == "thorough":
         ex = (exhaustive_cases(dict(base, maxsize=1, ncall=3), 2, 7)
               + exhaustive_cases(dict(base, maxsize=1, ncall=2, always_checkpoint=True), 2, 7)
-              + exhaustive_cases(dict(base, maxsize=2, ncall=2, ttl=1), 2, 6))
+              + exhaustive_cases(dict(base, maxsize=2, ncall=2, ttl=1), 2, 6)
+              + exhaustive_cases(dict(base, maxsize=1, ncall=2), 1, 6, with_clear=True))
     else:
-        ex = exhaustive_cases(dict(base, maxsize=1, ncall=2), 2, 5)
+        ex = (exhaustive_cases(dict(base, maxsize=1, ncall=2), 2, 5)
+              + exhaustive_cases(dict(base, maxsize=1, ncall=2), 1, 4, with_clear=True))
     exhaustive = len(ex)
     runs += ex
 
@@ -916,9 +1206,7 @@ def check(tier: str) -> int:
     model_outs = core.run_driver(exe, cases)
     disagreements = []
     rejected = 0
-    mflags = []
     for r, c, e, m in zip(runs, cases, expected, model_outs):
-        mflags.append(model_final_flags(m))
         ms = split_steps(m)
         rejected += sum(1 for s in ms if s[0] == 9)
         if e != m:
@@ -934,14 +1222,14 @@ def check(tier: str) -> int:
     vm_ok, vm_log = core.coq_eval_cases("c20", "Lru", [cases[i] for i in idx], [expected[i] for i in idx])
 
     # ---- decide ----  (explanations come from what was observed on the implementation, per monitor hit)
-    n_known = {"F3": 0, "F8": 0}
+    n_known = {k: 0 for k in KNOWN}
     viol = []
     for r in runs:
         if not r.hits:
             continue
         for cls in r.known_classes():
             n_known[cls] += 1
-            rep.known_finding(F3_WHAT if cls == "F3" else F8_WHAT)
+            rep.known_finding(KNOWN[cls])
         if r.unexplained():
             viol.append(r)
     any_tie = (not proofs_ok) or disagreements or rejected or any(r.crash for r in runs) or not vm_ok
@@ -949,7 +1237,7 @@ def check(tier: str) -> int:
         # a tie is broken and no monitor tripped on this batch: search further on the implementation alone
         srng = random.Random(core.seed() + 1)
         for i in range(1500 if tier == "quick" else 6000):
-            r = (directed_case(srng) if i % 4 == 0 else ttl_case(srng) if i % 4 == 1
+            r = (FAMILIES[(i // 2) % len(FAMILIES)](srng) if i % 2 == 0
                  else random_case(srng, srng.choice([10, 16, 24, 40])))
             if r.unexplained():
                 viol.append(r)
@@ -961,8 +1249,11 @@ def check(tier: str) -> int:
         un = small.unexplained()
         rep.violation(un[0][2], {"kind": "monitor", "cfg": small.cfg(), "ops": small.ops,
                                  "ops_readable": readable(small.ops), "monitor_hits": [h[2] for h in un[:5]],
-                                 "implementation_observed": {"placeholder_evicted_keys": sorted(small.f3_keys),
-                                                             "waited_entry_evicted_keys": sorted(small.f8_keys)},
+                                 "implementation_observed": {
+                                     "inflight_placeholder_evicted_keys": {str(k): v for k, v in small.evict_class.items()},
+                                     "waited_entry_evicted_keys": sorted(small.f8_keys),
+                                     "uncounted_placeholder_evicted": small.fu, "dead_placeholder_counted": small.fd,
+                                     "stale_count": small.fp, "maxsize0_concurrent": small.fb},
                                  "replay": "python harness/c20.py <this file>"})
     tie_broken = []
     if not proofs_ok:
@@ -988,7 +1279,8 @@ def check(tier: str) -> int:
         for f in r.flags:
             flags[f] = flags.get(f, 0) + 1
     interesting = {"contended_wait", "evict_value", "evict_inflight", "evict_waited", "ttl_expiry_replaced",
-                   "reuse_first_result", "cancel_lock_wait", "cancel_in_wrapped"}
+                   "reuse_first_result", "cancel_lock_wait", "cancel_in_wrapped", "new_loop_stale_count",
+                   "clear_in_flight", "call_in_cancelled_scope", "bypass_concurrent"}
     distinct = len({tuple(c) for c, r in zip(cases, runs) if r.flags & interesting})
     opcount = {}
     sizes = {}
@@ -1011,17 +1303,16 @@ def check(tier: str) -> int:
         "distinct_nontrivial": distinct,
         "directed_cases": n_directed,
         "rule": "random walk over the ops the implementation enables (idle caller: call with one of <= 4 argument "
-                "values, int or float; blocked caller: resume if its wake-up is queued, native cancel, resolve the "
-                "future of its wrapped-function execution with a fresh value or an exception; tick of the virtual "
-                "clock; cache_clear at quiescence), 2-4 callers, maxsize None/-1/0/1/2/3, ttl None/0/1/2/3, typed and "
+                "values, int or float, optionally inside an already cancelled scope; blocked caller: resume if its "
+                "wake-up is queued, native cancel, resolve the future of its wrapped-function execution with a fresh "
+                "value or an exception; tick of the virtual clock; cache_clear at any time; a new event loop on the "
+                "same wrapper at quiescence), 2-4 callers, maxsize None/-1/0/1/2/3, ttl None/0/1/2/3, typed and "
                 "always_checkpoint on/off, then quiescence and one probe call per key; plus exhaustive enumeration "
-                "of all enabled op sequences to a fixed depth; non-trivial = reaches a contended wait, an eviction, "
-                "a ttl replacement, a reuse of a first result or a cancellation inside the call; plus a directed family (one "
-                "flight with callers queued on it, other keys used meanwhile, the flight returns / raises / is cancelled, "
-                "further keys until eviction, probes) and a directed ttl family (mostly sequential calls over maxsize+1..2 "
-                "keys with clock ticks in between: expired and unexpired entries coexist, expired keys are recomputed, "
-                "misses evict, keys are re-requested); monitor hits are explained per key from the evictions observed "
-                "on the implementation's cache dict",
+                "of all enabled op sequences to a fixed depth; plus directed families (one flight with waiters and "
+                "other keys; ttl with ticks; two consecutive loops; calls aborted at the lock entry followed by "
+                "traffic; cache_clear racing a flight; maxsize=0 with concurrent equal calls; failed computations "
+                "followed by retries); monitor hits are explained per hit from predicates observed on the "
+                "implementation's cache dict (never from the model)",
         "exhaustive_small_scope_cases": exhaustive,
         "corpus_cases": n_corpus,
         "corpus_files": corpus_names,
@@ -1042,8 +1333,11 @@ def check(tier: str) -> int:
     if not vm_ok:
         rep.coverage["vm_compute_log"] = vm_log[-800:]
     for need in ("contended_wait", "evict_value", "evict_inflight", "evict_waited", "ttl_expiry_replaced",
-                 "reuse_first_result", "cancel_lock_wait", "cancel_in_wrapped", "hit", "hit_checkpoint", "expiry_recompute", "directed", "directed_ttl",
-                 "wrapped_raised", "internal_keyerror", "double_flight", "exceeds_maxsize", "clear"):
+                 "reuse_first_result", "cancel_lock_wait", "cancel_in_wrapped", "hit", "hit_checkpoint",
+                 "expiry_recompute", "directed", "directed_ttl", "wrapped_raised", "internal_keyerror",
+                 "double_flight", "exceeds_maxsize", "clear", "clear_in_flight", "new_loop", "new_loop_stale_count",
+                 "call_in_cancelled_scope", "evict_uncounted_placeholder", "dead_placeholder_counted",
+                 "bypass_concurrent"):
         if not flags.get(need):
             rep.notes.append(f"generator self-check: predicate {need} never reached")
     return rep.finish()
@@ -1057,11 +1351,10 @@ def replay(path: str) -> int:
     print("cfg", r.cfg())
     for (name, x, y), obs in zip(readable(r.ops), r.step_obs):
         print(f"  {name}({x},{y}) -> {obs}")
-    print("evicts_inflight", r.fi, "evicts_waited", r.fw, "crash", r.crash)
-    for m in r.mon:
-        print("MONITOR:", m)
+    print("observed: inflight", r.fi, "waited", r.fw, "uncounted", r.fu, "dead", r.fd, "stale count", r.fp,
+          "maxsize0 concurrent", r.fb, "crash", r.crash)
     for h in r.hits:
-        print("  explained by", r.explain(h), ":", h[0], h[1])
+        print("MONITOR:", h[2], "  [explained by", r.explain(h), "]")
     return 1 if r.unexplained() else 0
 
 
